@@ -59,6 +59,22 @@ Theorem C18_resume_replans_edited : forall comp src e,
 Proof. exact plan_resume_replans_edited. Qed.
 Print Assumptions C18_resume_replans_edited.
 
+(* The state file says nothing about the destination: it survives runs made with --resume=false, and files may have been removed
+   since.  Since `fix: resume skips a completed path only while the destination still holds it` an entry is kept out of the plan
+   only if the destination entry is what the planner itself would skip (default comparison): leaving it out changes nothing.  An
+   entry whose destination is missing or differs in size or time stamp is planned whatever the state says. *)
+Theorem C18_resume_skip_is_a_planner_skip : forall c ds comp dst src e,
+  c_checksum c = false -> c_ignore_times c = false ->
+  In e src -> ~ In e (plan_resume_d comp dst src) ->
+  t_action (plan_entry c ds dst e) = ASkip.
+Proof. exact plan_resume_d_harmless. Qed.
+Print Assumptions C18_resume_skip_is_a_planner_skip.
+
+Theorem C18_resume_replans_when_destination_differs : forall comp dst src e,
+  In e src -> dest_holds dst e = false -> In e (plan_resume_d comp dst src).
+Proof. exact plan_resume_d_replans_when_destination_differs. Qed.
+Print Assumptions C18_resume_replans_when_destination_differs.
+
 (* non-vacuity: a history in which a file was edited twice, a database with the row of the older version *)
 Definition ex_versions (p : path) : list (Z * N * N) := if peqb p [1%N] then [(100%Z, 5%N, 7%N); (200%Z, 5%N, 8%N)] else [].
 Example ex_history : history_ok ex_versions /\ db_truthful ex_versions [mk_row [1%N] 100 5 7] /\
